@@ -456,7 +456,7 @@ class LanguageCPP(Language):
             for id, inheritance in dictOfInheritance.items():
                 if isinstance(inheritance, Inheritance):
                     if inheritance.CLASS_TO_ID.find(classObj.ID) > -1:
-                        result = result + ' public ' + inheritance.CLASS_FROM.replace(classObj.NAMESPACE + "::","") + ", "
+                        result = result + ' public ' + StripOwnNamespace(inheritance.CLASS_FROM, classObj.NAMESPACE) + ", "
                 else:
                     raise RuntimeError("dictOfInheritance contains item not of type 'Inheritance'")
         else:
@@ -905,7 +905,7 @@ def _getNamespaceToClassesFromFullyQualifiedNames(classObj, setOfClasses, is_fil
     for f in sorted(setOfClasses):  # a set: iterate in a defined order, or the output changes with the hash seed
         if is_file_include:
             # If a class is in the same namespace...then it is in the same folder...so clean this first.
-            f = f.replace(classObj.NAMESPACE + "::", "")
+            f = StripOwnNamespace(f, classObj.NAMESPACE)
         full = f.split("::")
         ns = f.replace(full[-1], "")
         if is_file_include:  # when using this for include files, switch :: with /
